@@ -14,6 +14,7 @@ The clock can
     the per-sweep `diff` of the running `while diff > threshold` loop (read from
     the live frame), see DESIGN.md 2.3.
 """
+import _thread
 import ast
 import sys
 
@@ -82,6 +83,7 @@ class StepClock:
         self.installed = False
         self.on_interrupt = None
         self.interrupt_exc = None
+        self.sched = None           # scheduler of the threads the simulated process started (sim.threads), if any
         self.deliver = None         # custom delivery of the interruption (a signal handler the code installed)
         self.dead = False           # the simulated process was killed: no repository line may execute any more
 
@@ -129,7 +131,16 @@ class StepClock:
         self.prev2_vals = None
         self.interrupt_site = None
 
+    def threads_started(self):
+        """First thread of the simulated process: every line becomes a pre-emption point from here on."""
+        if not self.fine:
+            self.fine = True
+            mon.restart_events()
+            if self.step_cap is not None:
+                self.step_cap *= 40         # budgets were sized in coarse steps
+
     def disarm(self):
+        self.sched = None
         self.dead = False
         self.deliver = None
         self.interrupt_at = None
@@ -147,8 +158,15 @@ class StepClock:
             # a killed process executes nothing: every handler / finally block the unwinding would enter
             # is cut short at its first line
             raise SimInterrupt(self.interrupt_site or "dead")
+        sch = self.sched
+        if sch is not None and sch.started:
+            # pre-emption point of the thread scheduler (only one thread of the simulated process runs at a time)
+            sch.on_line(sys._getframe(2))
+            if self.dead:
+                raise SimInterrupt(self.interrupt_site or "dead")
         ia = self.interrupt_at
-        if ia is not None and self.steps >= ia:
+        if ia is not None and self.steps >= ia and (sch is None or not sch.started or _thread.get_ident() == sch.main.ident):
+            # (signals are delivered to the main thread)
             self.interrupt_at = None
             self.interrupt_site = "%s:%s" % (code.co_name, line)
             cb = self.on_interrupt
